@@ -488,6 +488,11 @@ class HolisticGroupbyAggregation(GroupbyAggregationBase):
     def should_shuffle(self):
         return True
 
+    @property
+    def split_out(self):
+        # sorted output is a single partition, as for decomposable aggregations
+        return 1 if self.sort else super().split_out
+
     @classmethod
     def aggregate(cls, inputs, **kwargs):
         return _groupby_aggregate_spec(_concat(inputs), **kwargs)
